@@ -225,9 +225,22 @@ func (p *Prog) PathTo(l *Line) (file *File, chain []StmtRef) {
 }
 
 func (f *File) AddHeaderIgnore(p *Prog, codes string) {
+	// real files start with licence headers, build constraints and blank lines: the @ignore comment is one of several
+	// comment lines before the package clause
+	switch (p.nextID + len(codes)) % 4 {
+	case 1:
+		f.Header = append(f.Header, p.NewLine("// Copyright 2026 The Authors. All rights reserved."), p.NewLine(""))
+	case 2:
+		f.Header = append(f.Header, p.NewLine("//go:build !ignore_this_file"), p.NewLine(""))
+	case 3:
+		f.Header = append(f.Header, p.NewLine("// Code generated by hand. EDIT AT WILL."))
+	}
 	l := p.NewLine("")
 	l.Trail = &Ignore{Codes: codes}
 	f.Header = append(f.Header, l)
+	if (p.nextID+len(codes))%3 == 0 {
+		f.Header = append(f.Header, p.NewLine(""))
+	}
 }
 
 func DescribePlacement(kind string, where string, list string) string {
